@@ -142,6 +142,10 @@ def _faults(c, rng):
                 put("step:" + f, step=f)
         if c["kind"] in ("sliding", "expanding", "single"):
             put("wl:toolong", wl="i:%d" % (n + 1))
+            put("wl:toolong", wl="i:%d" % (n - int(c["fh"].split(",")[-1].replace("r:", "")) + 1))      # just one too long
+        if c["kind"] in ("sliding", "expanding"):
+            put("wl:toolong-nosww", wl="i:%d" % (n + 1), sww=False)
+            put("wl:toolong-nosww", wl="i:%d" % (n - int(c["fh"].split(",")[-1].replace("r:", "")) + 1), sww=False)
         if c["kind"] == "sliding":
             for f in INT_FAULTS:
                 put("iw:" + f, iw=f, wl="i:1")
